@@ -366,13 +366,13 @@ def check_main(args):
     print(f'[{pid} {tier} seed={seed}] evaluations={evaluations} distinct_nontrivial={len(nontrivial)} '
           f'shards={len(results)}/{nshards} anchors={sum(1 for a in anchors.values() if a)} '
           f'known={sum(v["n"] for v in known_hit.values())} new={len(replay_paths)} wall={wall:.1f}s')
+    for p in problems:
+        print('INCONCLUSIVE:', p[:3000])
+    for h in harness[:3]:
+        print('HARNESS-ERROR:', h)
     if replay_paths:
         return 1
     if problems:
-        for p in problems:
-            print('INCONCLUSIVE:', p)
-        for h in harness[:3]:
-            print('HARNESS-ERROR:', h)
         return 2
     return 0
 
